@@ -6,6 +6,9 @@ import NixModel.Drive.Units
 import NixModel.Drive.Region
 import NixModel.Drive.Array
 import NixModel.Drive.Store
+import NixModel.Drive.Modes
+import NixModel.Drive.Crash
+import NixModel.Drive.Ids
 /-
   nixmodel: reads a trace (op lines with the implementation's recorded result after `=>`),
   replays each op on the Lean model, evaluates the property relations on the implementation's
@@ -37,6 +40,19 @@ def step (st : DState) (line : String) : DState × Option String :=
     | none =>
     match Store.handle st op args impl with
     | some (st', o) => (st', some o.render)
+    | none =>
+    match Modes.handle st op args impl with
+    | some (st', o) => (st', some o.render)
+    | none =>
+    match Crash.handle st op args impl with
+    | some (st', o) => (st', some o.render)
+    | none =>
+    match Ids.handle st op args impl with
+    | some (st', o) =>
+      -- File::forceId is the one call that re-identifies: keep the store model's root in step
+      let st' := if op == "id_forceid" && impl.head? == some "ok" then
+          { st' with smodel := { st'.smodel with store := st'.smodel.store.setAttr 0 "id" ((impl[1]?).getD "?") } } else st'
+      (st', some o.render)
     | none => (st, some Out.unknown.render)
 
 partial def loop (h : IO.FS.Stream) (out : IO.FS.Stream) (st : DState) : IO Unit := do
